@@ -6,15 +6,18 @@ from typing import Dict, Iterable
 
 
 class _Filter:
-    def __init__(self, rep, mapping: Dict[str, str]):
-        self.rep, self.mapping = rep, mapping
+    def __init__(self, rep, mapping: Dict[str, str], only=None):
+        self.rep, self.mapping, self.only = rep, mapping, only
+
+    def _keep(self, rule, a) -> bool:
+        return rule in self.mapping and (self.only is None or (bool(a) and self.only(str(a[0]))))
 
     def ok(self, rule, *a, **k):
-        if rule in self.mapping:
+        if self._keep(rule, a):
             self.rep.ok(self.mapping[rule], *a, **k)
 
     def violation(self, rule, *a, **k):
-        if rule in self.mapping:
+        if self._keep(rule, a):
             self.rep.violation(self.mapping[rule], *a, **k)
 
     def require(self, cond, msg):
@@ -29,7 +32,8 @@ class _Filter:
         pass
 
 
-def reuse(repo, rep, module: str, mapping: Dict[str, str]) -> None:
-    """Run rules.<module>.run and keep only the instances of the rules in `mapping` (source rule id -> rule id under this property)."""
+def reuse(repo, rep, module: str, mapping: Dict[str, str], only=None) -> None:
+    """Run rules.<module>.run and keep only the instances of the rules in `mapping` (source rule id -> rule id under this property);
+    `only(subject)` optionally restricts the instances by their subject text."""
     mod = importlib.import_module(f"rules.{module}")
-    mod.run(repo, _Filter(rep, mapping), "quick")
+    mod.run(repo, _Filter(rep, mapping, only), "quick")
